@@ -375,8 +375,9 @@ class Verdict:
             "coverage": self.cov, "assumptions": self.assumptions,
             "wall_s": round(time.time() - self.t0, 2), "violations": len(self.violations),
         }
-        os.makedirs(os.path.join(VERIF, "evidence"), exist_ok=True)
-        with open(os.path.join(VERIF, "evidence", self.prop + ".json"), "w") as f:
+        evdir = os.environ.get("VERIF_EVIDENCE_DIR") or os.path.join(VERIF, "evidence")
+        os.makedirs(evdir, exist_ok=True)
+        with open(os.path.join(evdir, self.prop + ".json"), "w") as f:
             json.dump(ev, f, indent=1, default=str)
         for fid, (n, fnd, case, sym) in sorted(self.known_hits.items()):
             print("KNOWN-FINDING: property=%s %s: %s (%d cases, e.g. %s)" % (self.prop, fid, fnd["title"], n, str(case.get("text", case.get("key", "")))[:80]))
@@ -392,7 +393,7 @@ class Verdict:
             for g, e in sorted(groups.items(), key=lambda kv: -kv[1][0]):
                 print("  GROUP %5d  %-40s fam=%s mn=%s w=%s   e.g. %s -> %s   %s" % (e[0], g[0], g[1], g[2], g[3], e[1], e[2], str(e[3])[:110]))
         if self.violations:
-            rdir = os.path.join(VERIF, "replay", self.prop)
+            rdir = os.path.join(os.environ.get("VERIF_REPLAY_DIR") or os.path.join(VERIF, "replay"), self.prop)
             os.makedirs(rdir, exist_ok=True)
             for i, (key, (n, case, sym, detail)) in enumerate(sorted(self.violations.items(), key=lambda kv: -kv[1][0])):
                 h = hashlib.sha1(key.encode()).hexdigest()[:12]
